@@ -104,7 +104,6 @@ func (u *ut0311) Broadcast(addr *net.UDPAddr, request []byte) ([][]byte, error) 
 func (u *ut0311) BroadcastTo(addr *net.UDPAddr, request []byte, callback func([]byte) bool) ([]byte, error) {
 	u.debugf(fmt.Sprintf(" ... request\n%s\n", codec.Dump(request, " ...          ")), nil)
 
-	deadline := time.Now().Add(u.timeout)
 	bind := net.UDPAddrFromAddrPort(u.bindAddr)
 
 	if bind == nil {
@@ -119,6 +118,9 @@ func (u *ut0311) BroadcastTo(addr *net.UDPAddr, request []byte, callback func([]
 		guard.Lock()
 		defer guard.Unlock()
 	}
+
+	// NTS: the timeout starts once the (shared) bind port has been acquired
+	deadline := time.Now().Add(u.timeout)
 
 	if connection, err := net.ListenUDP("udp", bind); err != nil {
 		return nil, fmt.Errorf("error creating UDP socket (%v)", err)
@@ -166,7 +168,6 @@ func (u *ut0311) BroadcastTo(addr *net.UDPAddr, request []byte, callback func([]
  * returns a byte slice with the reply.
  */
 func (u *ut0311) SendUDP(addr *net.UDPAddr, request []byte) ([]byte, error) {
-	deadline := time.Now().Add(u.timeout)
 	address := fmt.Sprintf("%v", addr)
 	bind := net.UDPAddrFromAddrPort(u.bindAddr)
 
@@ -182,6 +183,9 @@ func (u *ut0311) SendUDP(addr *net.UDPAddr, request []byte) ([]byte, error) {
 		guard.Lock()
 		defer guard.Unlock()
 	}
+
+	// NTS: the timeout starts once the (shared) bind port has been acquired
+	deadline := time.Now().Add(u.timeout)
 
 	dialer := net.Dialer{
 		Deadline:  deadline,
@@ -245,7 +249,6 @@ func (u *ut0311) SendUDP(addr *net.UDPAddr, request []byte) ([]byte, error) {
  * returns a byte slice with the reply.
  */
 func (u *ut0311) SendTCP(addr *net.TCPAddr, request []byte) ([]byte, error) {
-	deadline := time.Now().Add(u.timeout)
 	address := fmt.Sprintf("%v", addr)
 	bind := net.TCPAddrFromAddrPort(u.bindAddr)
 
@@ -261,6 +264,9 @@ func (u *ut0311) SendTCP(addr *net.TCPAddr, request []byte) ([]byte, error) {
 		guard.Lock()
 		defer guard.Unlock()
 	}
+
+	// NTS: the timeout starts once the (shared) bind port has been acquired
+	deadline := time.Now().Add(u.timeout)
 
 	dialer := net.Dialer{
 		Deadline:  deadline,
